@@ -183,7 +183,7 @@ func (e *env) checkCase() {
 	}
 	exp := e.vexpect()
 	limit := 4*(c.Pr*c.Pc) + 8
-	e.section("At", func() {
+	ok = e.section("At", func() {
 		got := make([][]string, c.Vr)
 		for i := range got {
 			got[i] = make([]string, c.Vc)
@@ -196,7 +196,7 @@ func (e *env) checkCase() {
 			ok = false
 		}
 	})
-	e.section("ConstAt", func() {
+	ok = ok && e.section("ConstAt", func() {
 		if got := snap(V); canon(got) != canon(exp) {
 			e.bad("ConstAt", "value", exp, got)
 			ok = false
